@@ -36,7 +36,7 @@ def access_obligations(s: Struct, inv):
     main = fns.get((s.name, None), {})
     partial_with = {}
     for (ty, tr), d in fns.items():
-        if ty.startswith(f"Partial{s.name}<") and tr is None:
+        if ty.startswith(f"{s.pname}<") and tr is None:
             for n in d:
                 partial_with.setdefault(n, []).append(ty)
     obs = []
@@ -90,7 +90,7 @@ def builder_obligations(s: Struct, inv):
     """C14: builder() offered exactly when sound; exact mask chain; build() only on the final mask"""
     fns = impl_fns(inv)
     main = fns.get((s.name, None), {})
-    partials = {ty: d for (ty, tr), d in fns.items() if ty.startswith(f"Partial{s.name}<") and tr is None}
+    partials = {ty: d for (ty, tr), d in fns.items() if ty.startswith(f"{s.pname}<") and tr is None}
     obs = []
     expect = s.builder_expected()
     has = "builder" in main
@@ -103,14 +103,14 @@ def builder_obligations(s: Struct, inv):
     if not has:
         return obs
     b = main["builder"]
-    ok = canon_int_ty(b["ret"]) == f"Partial{s.name}<0>" and b["const"] and not b["params"]
+    ok = canon_int_ty(b["ret"]) == f"{s.pname}<0>" and b["const"] and not b["params"]
     obs.append((f"{s.name}/builder-returns-Partial<0>", ok, None if ok else f"builder signature: {b}"))
     chain = s.mask_chain()
     expected_types = {}
     for f, m0, m1 in chain:
-        expected_types.setdefault(f"Partial{s.name}<{m0}>", {})[f"with_{f.name}"] = f"Partial{s.name}<{m1}>"
+        expected_types.setdefault(f"{s.pname}<{m0}>", {})[f"with_{f.name}"] = f"{s.pname}<{m1}>"
     final = chain[-1][2] if chain else 0
-    expected_types.setdefault(f"Partial{s.name}<{final}>", {})["build"] = s.name
+    expected_types.setdefault(f"{s.pname}<{final}>", {})["build"] = s.name
     for ty, d in sorted(expected_types.items()):
         have = partials.get(ty, {})
         for fn, ret in d.items():
